@@ -96,7 +96,7 @@ def do_map_async_fail(pl, pdesc, inp, run_folder, storage, executor, settle):
     try:
         with contextlib.redirect_stdout(io.StringIO()):
             res = asyncio.run(go())
-    except Exception as ex:  # noqa: BLE001
+    except (Exception, asyncio.CancelledError) as ex:  # noqa: BLE001  (a cancelled task is an outcome to judge, not a harness error)
         settle()
         evs = pmap.log_events(start)
         events += evs
